@@ -153,6 +153,9 @@ class _Gen:
         w = self.sigs[si]["width"]
         whole = (lo == 0 and hi == w)
         base = ["sig", si] if whole else ["slice", ["sig", si], lo, hi]
+        if self.sigs[si].get("late"):
+            return base
+        all_owned = [c for c in all_owned if not self.sigs[c[0]].get("late")]
         k = r.random()
         n = hi - lo
         if k < 0.4 or n == 0:
@@ -274,6 +277,11 @@ def gen_program(rng, opts=None):
         parent = r.choice(mods)
         parent["subs"].append(m)
         mods.append(m)
+    if o.get("derived_clocks") and r.random() < 0.25:
+        # the clock of a further domain, "slow0", is a register / a combinational output of the program, assigned and read through
+        # the late-bound ClockSignal("slow0") (a clock divider); nothing is clocked by it
+        sigs.append({"name": "slow0_clk", "width": 1, "signed": False, "init": 0, "reset_less": False, "role": "driven",
+                     "late": ["clk", "slow0"]})
     # ownership: every driven signal is split into 1..2 chunks, each owned by one (module, domain)
     drv = [i for i, s in enumerate(sigs) if s["role"] == "driven"]
     has_comb = {}
@@ -635,11 +643,19 @@ def build(prog):
     from amaranth.hdl import ClockDomain
     B.shadow_cds = {d["name"]: ClockDomain(d["shadow_of"], clk_edge=d["edge"], async_reset=d["async_reset"], reset_less=d["reset_less"])
                     for d in prog["domains"] if d.get("shadow_of")}
+    B.late_cds = {}
+    for i_, s_ in enumerate(prog["signals"]):
+        if s_.get("late"):
+            cd_ = ClockDomain(s_["late"][1])
+            B.late_cds[s_["late"][1]] = cd_
+            B.sigs[i_] = cd_.clk
     sigs = B.sigs
 
     def ex(e):
         op = e[0]
         if op == "sig":
+            if prog["signals"][e[1]].get("late"):
+                return ClockSignal(prog["signals"][e[1]]["late"][1])       # late bound: resolved when the design is prepared
             return sigs[e[1]]
         if op == "const":
             return Const(e[1], signed(e[2]) if e[3] else unsigned(e[2]))
@@ -774,6 +790,9 @@ def build(prog):
             m = Module()
             for key in (self.desc.get("shadow") or {}).values():
                 m.domains += B.shadow_cds[key]
+            if self.desc is prog["top"]:
+                for cd_ in B.late_cds.values():
+                    m.domains += cd_
             emit(m, self.desc["stmts"], None)
             for i, sub in enumerate(self.desc["subs"]):
                 e = wrap(sub)
